@@ -145,3 +145,24 @@ Definition current_ki : bool := match km_identity with Some b => b | None => fal
 Theorem current_source_cache_coherent : forall K es st, J K st -> admissible K st es ->
   Forall (fun r => snd (fst r) = Some (snd r)) (vrun current_ki K st es).
 Proof. unfold current_ki. rewrite km_identity_ok. exact cache_coherent. Qed.
+
+(** ---- C18 ---- *)
+From Memento Require Import Config.Config Config.ConfigProofs.
+
+Lemma cfg_reads_cache_ok : cfg_reads_cache = Some true.
+Proof. vm_compute. reflexivity. Qed.
+Lemma cfg_dumps_meta_ok : cfg_dumps_meta = Some true.
+Proof. vm_compute. reflexivity. Qed.
+Lemma cfg_first_match_ok : cfg_first_match = Some true.
+Proof. vm_compute. reflexivity. Qed.
+
+Definition current_scfg : scfg :=
+  {| reads_cache := match cfg_reads_cache with Some b => b | None => false end;
+     dumps_meta := match cfg_dumps_meta with Some b => b | None => false end |}.
+
+Theorem current_source_config_honoured : forall k o, build current_scfg k o no_opts = build current_scfg k no_opts o.
+Proof. unfold current_scfg. rewrite cfg_reads_cache_ok, cfg_dumps_meta_ok. exact file_equals_args. Qed.
+
+Theorem current_source_dump_reproduces : forall name e, env_ok e ->
+  resolve name (load_env current_scfg (dump_env current_scfg e)) = resolve name e.
+Proof. unfold current_scfg. rewrite cfg_reads_cache_ok, cfg_dumps_meta_ok. exact env_dump_roundtrip. Qed.
